@@ -169,3 +169,7 @@ def main(ctx):
         'cont': st.just('list'),
     })
     ctx.hyp(raw, n // 2, label='raw', seed_offset=1)
+    if ctx.tier == 'thorough':
+        from lib.harness import run_fuzz
+        seeds = [bytes(R.ref_encode(R.default_msg(t))) for t in R.ALL_TYPES if t != 'sysex'] + [b'\xf0\x01\xf8\x02\xf7']
+        run_fuzz(ctx, 'C04', 1000000, seeds, max_len=64)
